@@ -14,7 +14,7 @@ def run(tier, seed, replay=None):
         'dense reference decompositions: Eigen SelfAdjointEigenSolver / EigenSolver in long double',
         'Mathlib spectral theorem for real symmetric matrices (c04_interlace_real only)']
     R.assumptions = ['spectra prescribed with simple eigenvalues whose keys (in the spectrum the rule acts on) are at least 0.5 % of the key spread apart (re-checked on the reference spectrum, otherwise the case is skipped and counted)',
-                     'ncv >= 2 nev + 1, default start vector, default maxit = 1000 and tol = 1e-10',
+                     'ncv >= 2 nev + 1, default start vector, default maxit = 1000 and tol = 1e-10 (history shares: one preceding compute() with another rule on the same object, no init() in between)',
                      'general-family shift schedule: complex Ritz values sit in adjacent conjugate pairs (AdjacentConj); no NaN']
     if replay:
         exe, log = build_harness('c04', sanitize=False)
@@ -35,11 +35,15 @@ def run(tier, seed, replay=None):
         R.cov['distinct_nontrivial'] = nk + ns + ctr.get('oracle_successful_checked', 0)
         R.cov['oracle_summary'] = {k: v for k, v in ctr.items() if k.startswith(('oracle_', 'not_successful', 'precondition', 'run_exception', 'hooks_seen', 'model_tie', 'generator', 'case_exception'))}
         R.cov['not_converged_by_family_rule'] = {k[8:]: v for k, v in ctr.items() if k.startswith('notconv_')}
+        R.cov['structured_shares'] = {k: v for k, v in ctr.items() if k.startswith('cfg_')}
         R.cov['checked_by_family'] = {k[3:]: v for k, v in ctr.items() if k.startswith('ok_')}
         R.cov['checked_fullspace_by_family'] = {k[7:]: v for k, v in ctr.items() if k.startswith('okfull_')}
         R.cov['rule'] = ('acceptance oracle: 14 solver families (SymEigs, HermEigs, SymEigsShift, GenEigs, GenEigsRealShift, GenEigsComplexShift, SymGEigs Cholesky/RegularInverse, '
                          'SymGEigsShift ShiftInvert/Buckling/Cayley, Davidson, PartialSVD, LOBPCG) x every supported rule x 3 (quick) / 8 (thorough) prescribed spectra '
                          '(positive / mixed-sign / negative keys, jittered grid with gaps >= 0.55 % of the spread), n = 30 quick, up to 200 thorough (general families up to 60), nev 1..6, ncv = 2 nev + 1 + (0..6); '
+                         'structured shares of GenEigsComplexShiftSolver (8 per rule quick / 24 thorough, n = 24..36): decoupled block-diagonal matrices (1x1, 2x2 rotation-scaling, dense S D S^-1 blocks over 2-3 units) with the blocks of the WANTED eigenvalues last, so that the wanted eigenvectors vanish in the first nev coordinates (decoupled-away, -dense, -perm behind a zero-preserving permutation similarity), control with them first (decoupled-inside); '
+                         '(block) upper triangular / banded / permuted matrices with exactly prescribed eigenvalues (grid 1/8) and sigma = (an exact real eigenvalue) + i tau, tau in {0.1 .. 2}, or Re sigma = real part of a 2x2 diagonal block (exact-resigma-*); keys separated by >= 0.65 % of the candidate key range by construction; '
+                         'a returned set that contains the wanted acted-on value nu but not its eigenvalue (mirror image root) is reported as wrong-root independently of the full-space twin; history shares of GenEigsSolver / RealShift / ComplexShift (2 per rule quick / 5 thorough): init(); compute(ruleA); compute(ruleB) on one object, judged under ruleB, twin with the same history; '
                          'a case counts when the solver reported Successful and the returned set was compared with the long-double reference; every case is repeated with ncv = n (full-space run: only the selection logic is left), which separates selection defects (wrong-set) from premature convergence (misconverged); '
                          'kernel correspondence: exhaustive real argsort-then-take-k over {-2..2}^n (n <= 4 quick / 5 thorough, 9 rules, all k), SortEigenvalue<Complex> over 8 values^n (n <= 3/4), '
                          'real HermEigsBase::restart on injected Ritz values over {+-0.5,+-1,+-2}^ncv (ncv <= 4/5 exhaustive, up to 8/12 sampled) and GenEigsBase::restart over 6 complex patterns^ncv; distinct request lines counted')
